@@ -292,7 +292,85 @@ pub fn replay_case(v: &Value, s: &mut Sweep) {
     }
 }
 
+/// conc build: the parallel tree builder under every thread count and every single-region
+/// deviation of the controlled scheduler (engine E3), against the reference heap
+#[cfg(feature = "conc")]
+fn run_conc(args: &Args) -> ! {
+    let mut report = Report::new(args, "exploration");
+    let thorough = args.tier == mck::Tier::Thorough;
+    fn one<H: Hasher>(hname: &str, lg: u32, ts_all: &[usize], ts_dev: &[usize]) -> (Sweep, rayon::ExploreStats) {
+        let n = 1usize << lg;
+        let leaves = make_leaves::<H>(n, 4);
+        let m = merge_fn::<H>();
+        let heap = r5::heap(&leaves, &m);
+        let mut s = Sweep::new();
+        let st = rayon::explore(ts_all, ts_dev, 1, |tag| {
+            s.evals += 2;
+            s.nontrivial += 2;
+            let key = format!("{hname}/n={n} [{tag}]");
+            match mck::catch(|| MerkleTree::<H>::new(leaves.clone())) {
+                Ok(Ok(t)) => {
+                    if *t.root() != heap[1].unwrap() {
+                        s.fail(format!("wrong:root:concurrent:{hname}"), key.clone(), format!("{hname}: root of the {n}-leaf tree built by MerkleTree::new differs from the recursive pairwise hash [{tag}]"));
+                    }
+                    // openings read the internal nodes: a few must still verify
+                    for i in [0, n / 2 - 1, n - 1] {
+                        let ok = t.prove(i).map(|(l, p)| p == r5::path(&heap, i) && l == leaves[i]).unwrap_or(false);
+                        if !ok {
+                            s.fail(format!("wrong:nodes:concurrent:{hname}"), key.clone(), format!("{hname}: opening {i} of the {n}-leaf tree reads wrong internal nodes [{tag}]"));
+                        }
+                    }
+                },
+                _ => s.fail(format!("err:new:concurrent:{hname}"), key.clone(), format!("MerkleTree::new failed [{tag}]")),
+            }
+            match mck::catch(|| winter_crypto::concurrent::build_merkle_nodes::<H>(&leaves)) {
+                Ok(nodes) => {
+                    if nodes.len() != n || (1..n).any(|k| nodes[k] != heap[k].unwrap()) {
+                        let bad = (1..n).find(|k| nodes.get(*k) != heap[*k].as_ref());
+                        s.fail(format!("wrong:build_merkle_nodes:concurrent:{hname}"), key, format!("{hname}: concurrent::build_merkle_nodes on {n} leaves: node {bad:?} differs from the reference heap [{tag}]"));
+                    }
+                },
+                Err(p) => s.fail(format!("panic:build_merkle_nodes:concurrent:{}", p.location), key, format!("panicked: {} [{tag}]", p.message)),
+            }
+        });
+        (s, st)
+    }
+    let ts_all = [1usize, 2, 3, 4, 5, 8, 16];
+    let ts_dev: Vec<usize> = if thorough { vec![2, 3, 4, 8, 16] } else { vec![2, 4, 8] };
+    let logs: Vec<u32> = if thorough { vec![10, 11, 12, 13, 14] } else { vec![11, 12] };
+    let mut jobs: Vec<(u8, u32)> = logs.iter().map(|l| (0u8, *l)).collect();
+    jobs.push((1, 11));
+    let outs = mck::par_map(jobs.len(), |j| match jobs[j].0 {
+        0 => one::<Blake3_256<B64>>("Blake3_256", jobs[j].1, &ts_all, &ts_dev),
+        _ => one::<Rp64_256>("Rp64_256", jobs[j].1, &ts_all, &ts_dev),
+    });
+    let (mut evals, mut sched, mut nontrivial, mut tasks) = (0, 0, 0, 0);
+    let mut regions = vec![];
+    for ((_, l), (s, st)) in jobs.iter().zip(outs) {
+        evals += s.evals;
+        sched += st.schedules;
+        nontrivial += st.nontrivial;
+        tasks += st.task_runs;
+        regions.push(json!({"log2_leaves": l, "regions_(threads,total,multi)": st.regions}));
+        report.violations(s.viol);
+        for (c, n) in s.more {
+            report.count_more(&c, n);
+        }
+    }
+    report.part("conc build under the controlled scheduler: MerkleTree::new and concurrent::build_merkle_nodes vs the reference heap, T in {1,2,3,4,5,8,16}, every region in every alternative order", evals, nontrivial,
+        json!({"schedules": sched, "task_executions": tasks, "regions": regions}));
+    report.exhaustive = true;
+    report.bounds = json!({"log2_leaves": logs, "thread_counts": ts_all, "deviation_bound": 1, "variant": args.variant});
+    report.rule = "one case per (hasher, tree size, entry point, schedule); non-trivial = all (each compares every internal node)".into();
+    report.assumptions = vec!["tasks are atomic (no scheduling point inside a task)".into()];
+    report.finish(args)
+}
+
 pub fn run(args: &Args) {
+    #[cfg(feature = "conc")]
+    if args.variant.starts_with("conc") && args.replay.is_none() {
+        run_conc(args);
+    }
     let mut report = Report::new(args, "exploration");
     if let Some(v) = args.replay_value() {
         let mut s = Sweep::new();
